@@ -25,6 +25,18 @@ type PlaceCase struct {
 // cards selects query cardinalities (singular only keeps the Go client compilable on the
 // unchanged tree; optional/repeated live in their own package).
 func PlacementFile(pkg, goName string, queryKinds []spec.T, cards []spec.Card, withPath bool) (*spec.File, []*PlaceCase) {
+	return PlacementFileG(pkg, goName, PlacementGroup{QueryKinds: queryKinds, Cards: cards, WithPath: withPath})
+}
+
+// QueryNameShapes are spellings of the (sebuf.http.query) name: the wire key is whatever the
+// definition says, in every generator and for every verb.
+var QueryNameShapes = []struct{ Label, Name string }{
+	{"camel", "pageSize"}, {"upper-acronym", "APIKey"}, {"snake", "sort_by"}, {"dash", "x-mode"}, {"dot", "filter.name"}, {"bracket", "ids[]"}, {"digit", "v2"}, {"single-upper", "Q"},
+}
+
+// PlacementFileG builds the placement file of one group.
+func PlacementFileG(pkg, goName string, g PlacementGroup) (*spec.File, []*PlaceCase) {
+	queryKinds, cards, withPath := g.QueryKinds, g.Cards, g.WithPath
 	f := &spec.File{Path: "place/" + goName + "/place.proto", Package: pkg, GoImport: "lab/gen/" + goName, GoName: goName}
 	f.Enums = []*spec.EnumDef{{Name: "PEnum", Values: []spec.EnumValue{{Name: "P_ENUM_UNSPECIFIED", Num: 0}, {Name: "P_ENUM_ONE", Num: 1}, {Name: "P_ENUM_TWO", Num: 2}}}}
 	f.Messages = []*spec.Message{{Name: "PlaceResp", Fields: []*spec.Field{spec.F("echo", 1, spec.String), spec.F("count", 2, spec.Int64), spec.F("ratio", 3, spec.Double), spec.F("blob", 4, spec.Bytes), spec.F("tags", 5, spec.String).Rep()}}}
@@ -35,6 +47,7 @@ func PlacementFile(pkg, goName string, queryKinds []spec.T, cards []spec.Card, w
 	var cases []*PlaceCase
 	n := 0
 	number64 := false
+	qname, qshape := "vx", ""
 	add := func(where string, k spec.T, cd spec.Card, verb string) {
 		n++
 		kn := spec.KindName(k)
@@ -62,8 +75,8 @@ func PlacementFile(pkg, goName string, queryKinds []spec.T, cards []spec.Card, w
 		case "path":
 			path += "/{val_x}/tail"
 		case "query":
-			fld.Q("vx")
-			pc.QueryKey = "vx"
+			fld.Q(qname)
+			pc.QueryKey = qname
 		}
 		req.Fields = []*spec.Field{fld}
 		if verb == "POST" || verb == "PUT" || verb == "PATCH" {
@@ -71,6 +84,10 @@ func PlacementFile(pkg, goName string, queryKinds []spec.T, cards []spec.Card, w
 		}
 		pc.Template = "/pl" + path
 		pc.ID = fmt.Sprintf("place/%s/%s/%s/%s", where, kn, cd, verb)
+		if qshape != "" {
+			// the spelling is part of the kind segment, so patterns over place/query/<kind>/… still apply
+			pc.ID = fmt.Sprintf("place/query/%s~qname=%s/%s/%s", kn, qshape, cd, verb)
+		}
 		f.Messages = append(f.Messages, req)
 		svc.Methods = append(svc.Methods, &spec.Method{Name: mname, In: "." + pc.In, Out: "." + pc.Out, HTTP: &spec.HTTP{Path: path, Verb: spec.Verb(verb)}})
 		cases = append(cases, pc)
@@ -84,6 +101,17 @@ func PlacementFile(pkg, goName string, queryKinds []spec.T, cards []spec.Card, w
 				add("path", k, spec.Singular, v)
 			}
 		}
+	}
+	if g.NameShapes {
+		for _, ns := range QueryNameShapes {
+			qname, qshape = ns.Name, ns.Label
+			for _, k := range queryKinds {
+				for _, v := range []string{"GET", "DELETE", "POST"} {
+					add("query", k, spec.Singular, v)
+				}
+			}
+		}
+		return f, cases
 	}
 	for _, k := range queryKinds {
 		for _, cd := range cards {
@@ -113,6 +141,7 @@ type PlacementGroup struct {
 	QueryKinds []spec.T
 	Cards      []spec.Card
 	WithPath   bool
+	NameShapes bool // query fields under every QueryNameShapes spelling instead of the neutral "vx"
 }
 
 // PlacementGroups lists the packages of the placement catalogue.
@@ -125,10 +154,11 @@ func PlacementGroups() []PlacementGroup {
 	}
 	all := append(append([]spec.T{}, spec.ScalarKinds...), spec.Enum)
 	return []PlacementGroup{
-		{"ok", plain, []spec.Card{spec.Singular}, true},
-		{"qenum", []spec.T{spec.Enum}, []spec.Card{spec.Singular}, false},
-		{"qbytes", []spec.T{spec.Bytes}, []spec.Card{spec.Singular}, false},
-		{"qopt", all, []spec.Card{spec.Optional}, false},
-		{"qrep", all, []spec.Card{spec.Repeated}, false},
+		{Label: "ok", QueryKinds: plain, Cards: []spec.Card{spec.Singular}, WithPath: true},
+		{Label: "qnames", QueryKinds: []spec.T{spec.String, spec.Int32, spec.Bool}, Cards: []spec.Card{spec.Singular}, NameShapes: true},
+		{Label: "qenum", QueryKinds: []spec.T{spec.Enum}, Cards: []spec.Card{spec.Singular}},
+		{Label: "qbytes", QueryKinds: []spec.T{spec.Bytes}, Cards: []spec.Card{spec.Singular}},
+		{Label: "qopt", QueryKinds: all, Cards: []spec.Card{spec.Optional}},
+		{Label: "qrep", QueryKinds: all, Cards: []spec.Card{spec.Repeated}},
 	}
 }
